@@ -275,9 +275,9 @@ def _history_case(rng, tier, mode):
 
 def generate(rng, tier):
     import random
-    n = 20 if tier == "quick" else 120
+    n = 16 if tier == "quick" else 120
     cases = [_wrapper_sweep(4 if tier == "quick" else 6)]
-    for i in range(5 if tier == "quick" else 40):
+    for i in range(4 if tier == "quick" else 40):
         h = _history_case(random.Random(rng.randint(0, 10 ** 9)), tier, "code" if i % 2 else "sdl")
         if h is not None:
             cases.append(h)
